@@ -279,6 +279,142 @@ def check_subresource_boundary(ctx: Ctx, rule: str) -> None:
                detail='; '.join(norm(c, 80) for c in tests) or 'no startswith() filter')
 
 
+
+# ---------------------------------------------------------------------------------------------------------------- gaps found by the mutation sweep
+def check_record_field_mapping(ctx: Ctx, rule: str) -> None:
+    """HandlerState.for_storage / from_storage: each key of the persisted record is computed from the field of the same name, and each field is
+    restored from the key of the same name (the key *sets* agree by R2.5; a crossed pair -- `failure` restored from 'success' -- passes that rule and
+    turns a recorded success into a permanent failure, or resets the attempts)."""
+    repo = ctx.repo
+    fs = repo.fn('progression.HandlerState.for_storage')
+    fr = repo.fn('progression.HandlerState.from_storage')
+    ctx.analysed(fs, fr)
+    recs = [c for c in calls_in(fs.node) if (repo.resolve(fs.module, c.func) or '').endswith('ProgressRecord')]
+    ctx.require_sites(rule, 'for_storage: construction of the ProgressRecord', len(recs), 1, fs.loc())
+    n = 0
+    for c in recs:
+        for kw in c.keywords:
+            if kw.arg is None:
+                continue
+            attrs = {x.attr for x in ast.walk(kw.value) if isinstance(x, ast.Attribute) and isinstance(x.value, ast.Name) and x.value.id == 'self'}
+            n += 1
+            ctx.ob(rule, f'for_storage: record key `{kw.arg}` is computed from self.{kw.arg} and from no other field', attrs == {kw.arg}, loc=fs.loc(kw.value),
+                   construct=construct(fs, f'keys:for_storage:{kw.arg}'), detail=f'reads {sorted(attrs)}')
+            # a None field is stored as None, any other value is stored (not the reverse): `None if <absent test> else <conversion of the field>`
+            v = kw.value
+            if isinstance(v, ast.IfExp):
+                none_branch_is_body = isinstance(v.body, ast.Constant) and v.body.value is None
+                t = v.test
+                absent = (isinstance(t, ast.Compare) and len(t.ops) == 1 and isinstance(t.ops[0], ast.Is) and isinstance(t.comparators[0], ast.Constant)
+                          and t.comparators[0].value is None) or (isinstance(t, ast.UnaryOp) and isinstance(t.op, ast.Not))
+                present = (isinstance(t, ast.Compare) and len(t.ops) == 1 and isinstance(t.ops[0], ast.IsNot)) or \
+                          (isinstance(t, ast.Attribute))
+                none_branch_is_else = isinstance(v.orelse, ast.Constant) and v.orelse.value is None
+                ok = (none_branch_is_body and absent) or (none_branch_is_else and present)
+                ctx.ob(rule, f'for_storage: `{kw.arg}` is stored as None exactly when the field is absent, and converted otherwise', ok, loc=fs.loc(v),
+                       construct=construct(fs, f'formula:for_storage:{kw.arg}:None iff absent'), detail=norm(v, 80))
+    ctx.require_sites(rule, 'for_storage: record keys', n, 9, fs.loc())
+    ctors = [c for c in calls_in(fr.node) if isinstance(c.func, ast.Name) and c.func.id == 'cls']
+    ctx.require_sites(rule, 'from_storage: construction of the HandlerState', len(ctors), 1, fr.loc())
+    dparam = fr.params()[1].arg if len(fr.params()) > 1 else None
+    m = 0
+    for c in ctors:
+        for kw in c.keywords:
+            if kw.arg is None or kw.arg in ('active', 'basetime', '_origin'):
+                continue
+            keys = set()
+            for x in ast.walk(kw.value):
+                if isinstance(x, ast.Call) and method_call(x, 'get') is not None and dotted(method_call(x, 'get')) == dparam and x.args and isinstance(x.args[0], ast.Constant):
+                    keys.add(x.args[0].value)
+                if isinstance(x, ast.Subscript) and dotted(x.value) == dparam and isinstance(x.slice, ast.Constant):
+                    keys.add(x.slice.value)
+            m += 1
+            ctx.ob(rule, f'from_storage: field `{kw.arg}` is restored from the record key \'{kw.arg}\' and from no other key', keys == {kw.arg}, loc=fr.loc(kw.value),
+                   construct=construct(fr, f'keys:from_storage:{kw.arg}'), detail=f'reads {sorted(keys)}')
+    ctx.require_sites(rule, 'from_storage: restored fields', m, 9, fr.loc())
+    # defaults of the restored flags: an absent success/failure reads as False, absent retries as 0 (never as done / never as exhausted)
+    for c in ctors:
+        for kw in c.keywords:
+            if kw.arg in ('success', 'failure', 'retries') and isinstance(kw.value, ast.BoolOp):
+                last = kw.value.values[-1]
+                want = 0 if kw.arg == 'retries' else False
+                ctx.ob(rule, f'from_storage: an absent `{kw.arg}` reads as {want!r} (`... or {want!r}`)', isinstance(kw.value.op, ast.Or) and isinstance(last, ast.Constant)
+                       and last.value == want and type(last.value) is type(want), loc=fr.loc(kw.value), construct=construct(fr, f'config:from_storage:{kw.arg}:default'),
+                       detail=norm(kw.value, 60))
+
+
+def check_pressure_relief(ctx: Ctx, rule: str) -> None:
+    """queueing.worker: before the processor is awaited for the last queued event, the stream-pressure flag is cleared (under `backlog.empty()`).
+    A pressure flag that stays set makes every interruptible sleep of the processor (`apply`, the consistency barrier) return at once as
+    "interrupted": no touch-patch is sent, no new event arrives, and a delayed/retried handler is never woken up again."""
+    repo = ctx.repo
+    f, g = cfg_of(ctx, 'queueing.worker')
+    procp = 'processor'
+    proc = g.stmt_nodes(lambda x: isinstance(x, ast.Call) and isinstance(x.func, ast.Name) and x.func.id == procp)
+    ctx.require_sites(rule, 'worker: the processor call', len(proc), 1, f.loc())
+    clears = g.stmt_nodes(lambda x: isinstance(x, ast.Call) and method_call(x, 'clear') is not None and 'pressure' in (dotted(method_call(x, 'clear')) or ''))
+    ctx.require_sites(rule, 'worker: pressure.clear()', len(clears), 1, f.loc())
+
+    def assume(test, outcome):
+        # prune the branches on which `backlog.empty()` is false at the relief test (the flag may stay set only when more events are queued)
+        def empty_false(e, o):
+            return isinstance(e, ast.Call) and method_call(e, 'empty') is not None and o is False
+        from ..rules import cond_implies
+        return False if cond_implies(test, outcome, empty_false) else None
+    gets = g.stmt_nodes(lambda x: isinstance(x, ast.Call) and method_call(x, 'get') is not None and 'backlog' in (dotted(method_call(x, 'get')) or ''))
+    r = g.reach(gets, stop=lambda n: n in set(clears), edge_ok=g.pruned(assume))
+    und = [p for p in proc if p in r]
+    ctx.ob(rule, 'worker: on every path from the dequeue to the processor on which the backlog is empty, pressure.clear() is executed first (the processor can '
+                 'then really sleep for the handlers\' delays and send the touch-patch that wakes them up)', not und and bool(clears) and bool(gets),
+           loc=f.loc(proc[0].stmt) if proc else f.loc(), construct=construct(f, 'dom:backlog.empty() => pressure.clear() < processor'))
+    # and the flag handed to the processor is that very flag
+    for n in proc:
+        for c in calls_in(n.stmt):
+            if isinstance(c.func, ast.Name) and c.func.id == procp:
+                sp = kwarg(c, 'stream_pressure')
+                recv = dotted(method_call([x for cl in clears for x in calls_in(cl.stmt) if method_call(x, 'clear') is not None][0], 'clear')) if clears else None
+                ctx.ob(rule, 'worker: the flag that is cleared is the one handed to the processor as stream_pressure', sp is not None and dotted(sp) == recv,
+                       loc=f.loc(c), construct=construct(f, 'flow:stream_pressure=cleared flag'), detail=f'{norm(sp, 40)} vs {recv}')
+
+
+def check_apply_always(ctx: Ctx, rule: str) -> None:
+    """processing.process_resource_event: once the causes were processed, `application.apply` is reached on every normal path unless the event is DELETED:
+    whatever was accumulated (handler patches, progress, finalizer edits) and whatever delays are due are applied/slept in this very cycle."""
+    repo = ctx.repo
+    f, g = cfg_of(ctx, 'processing.process_resource_event')
+    prc = g.call_nodes('processing.process_resource_causes')
+    app = g.call_nodes('application.apply')
+    ctx.require_sites(rule, 'process_resource_event: process_resource_causes call', len(prc), 1, f.loc())
+    ctx.require_sites(rule, 'process_resource_event: application.apply call', len(app), 1, f.loc())
+
+    def assume(test, outcome):
+        def is_deleted(e, o):
+            # `raw_event['type'] != 'DELETED'` False  /  `== 'DELETED'` True
+            if isinstance(e, ast.Compare) and len(e.ops) == 1 and isinstance(e.comparators[0], ast.Constant) and e.comparators[0].value == 'DELETED':
+                return (isinstance(e.ops[0], ast.NotEq) and o is False) or (isinstance(e.ops[0], ast.Eq) and o is True)
+            return False
+        from ..rules import cond_implies
+        return False if cond_implies(test, outcome, is_deleted) else None
+    pr = g.pruned(assume)
+
+    def normal_flow(a, b) -> bool:     # the failure of a call is contained by `throttled` (C12); this rule is about the cycles that complete
+        return pr(a, b) and b not in a.exc_edges.values()
+    esc = g.escaping_exits(prc, app, classes=('normal',), edge_ok=normal_flow)
+    ctx.ob(rule, 'process_resource_event: for every event other than DELETED, every normal path from process_resource_causes to the end of the cycle passes '
+                 'application.apply (no condition may skip the delivery of the accumulated patch or the sleep-and-touch for the delays)', not esc and bool(app) and bool(prc),
+           loc=f.loc(app[0].stmt) if app else f.loc(), construct=construct(f, 'allexits:causes -> apply unless DELETED'))
+    for n in app:
+        for c in calls_in(n.stmt):
+            if repo.callee_names(f, c) and any(q.endswith('application.apply') for q in repo.callee_names(f, c)):
+                d, pz = kwarg(c, 'delays'), kwarg(c, 'patch')
+                src_d = None
+                for m in prc:
+                    st = m.stmt
+                    if isinstance(st, ast.Assign) and isinstance(st.targets[0], ast.Tuple) and st.targets[0].elts and isinstance(st.targets[0].elts[0], ast.Name):
+                        src_d = st.targets[0].elts[0].id
+                ctx.ob(rule, 'process_resource_event: apply() receives the delays returned by process_resource_causes and the cycle\'s patch', d is not None and dotted(d) == src_d
+                       and pz is not None and dotted(pz) == 'patch', loc=f.loc(c), construct=construct(f, 'flow:apply(delays=, patch=)'), detail=f'delays={norm(d, 30)} patch={norm(pz, 30)}')
+
 # ---------------------------------------------------------------------------------------------------------------- cross-wiring
 def _c01_worker(ctx: Ctx, rule: str) -> None:
     from . import C01
@@ -375,5 +511,9 @@ EXTRA = {
     'C02': [(_c15_dedup, 'R2.15'), (_c16_locations, 'R2.16')],
     'C11': [(_c09_deleted, 'R11.7')],
     'C15': [(_closing_flag, 'R15.8')],
-    'C16': [(_c02_sibling, 'R16.9')],
+    'C16': [(_c02_sibling, 'R16.9'), (check_record_field_mapping, 'R16.10')],
 }
+EXTRA['C02'] += [(check_record_field_mapping, 'R2.17')]
+EXTRA['C11'] += [(check_record_field_mapping, 'R11.8'), (check_pressure_relief, 'R11.9')]
+EXTRA['C03'] += [(check_pressure_relief, 'R3.10'), (check_apply_always, 'R3.11')]
+EXTRA['C08'] += [(check_apply_always, 'R8.9')]
